@@ -98,7 +98,7 @@ impl ArrayReader for MapArrayReader {
     fn consume_batch(&mut self) -> Result<ArrayRef> {
         // A MapArray is just a ListArray with a StructArray child
         // we can therefore just alter the ArrayData
-        let array = self.reader.consume_batch().unwrap();
+        let array = self.reader.consume_batch()?;
         let data = array.to_data();
         let builder = data.into_builder().data_type(self.data_type.clone());
 
